@@ -7,13 +7,20 @@
   contents), over a world of named containers with a log of every identity ever constructed / finalised.
   Source-derived facts: CelloGen/Own.lean (which functions of the container sources call destruct / assign / memcpy).
 
-  The property as stated is false on this tree in three places (known findings; the model mirrors them):
+  The property as stated is false on this tree in these places (known findings; the model mirrors them):
     * Box_Assign / Box_Ref copy the pointer (F28): containers of Box are copied shallowly, `set` and `ref` drop the old pointee;
     * List_Resize(n > len) links zero-filled, never constructed elements;
     * Array_Assign from a source whose `get(obj, $I(i))` raises (a Table / Tree) leaves `len` counting records that were
-      never constructed.
-  (A third defect found by this engine — a List_Push_At that raised had already constructed the element and leaked
+      never constructed;
+    * Array_New with an initial element whose assign raises leaves a half-built array (owned by the collector) whose
+      Array_Del destructs records that were never constructed.
+  (Another defect found by this engine — a List_Push_At that raised had already constructed the element and leaked
   it — was repaired in /repo by 4077d96; `C05_list_pushat_old_order_refuted` keeps the witness against the old order.)
+  Calls with an element / key / value of the WRONG TYPE are operations of the model (`Op.typed`): refused without any
+  effect wherever the type check precedes the first effect (`C05_type_check_first_*` about the source,
+  `C05_refused_no_effect_type` about the model), and mirrored where the container makes room first — Array_Push /
+  Array_Push_At / Array_Concat (KF-C12-array-push-type, recorded under C12), Array_New (own-array-new-partial), List_Concat
+  after well-typed items (KF-C12-list-concat-partial): `typedAtomic` keeps exactly those out (`C05_type_refused_atomic_exact`).
   `inContract` excludes exactly these, the assignments that are refused after the destination was cleared, and the
   operations the op-file interpreters do not execute at all (`bad`); the theorems named `…_partial` are proved for every
   history of in-contract operations, the full statements are kept as `…_statement` and refuted (`…_refuted`) on concrete
@@ -31,6 +38,54 @@ namespace Cello.Own
 open List
 
 /-! ## The tie to the source text -/
+
+/-! ### where the type checks stand (per function)
+
+A call with a wrong-typed key or value is refused by the `cast` at the top of `Table_Set_Move` / `Tree_Set` /
+`Table_Rem` / `Tree_Rem`.  The model's type-refused map calls (`mapSetArgs`, `mapRemWrong`, `mapNewRefused`) are inert
+because, in the source as it is, each of these functions casts **every** element argument **before** its first effect
+(allocation, assign, destruct, byte move, `nitems` update) and nowhere later.  One theorem per function, about the row
+the translator regenerates on every run: a refactor that casts at the point of use — after the node was allocated and the
+key copy assigned into it — breaks the theorem of that function. -/
+
+/-- `Table_Set_Move(self, key, val, move)`: `cast(key)`, `cast(val)`, then — first effect — the `memset` of the swap space -/
+theorem C05_type_check_first_table_set_move :
+    typeCheckOf CelloGen.Own.typeChecks "Table_Set_Move" = some (["key", "val"], "memset", []) := by decide
+
+/-- `Tree_Set(self, key, val)`: `cast(key)`, `cast(val)`, then — first effect — `Tree_Alloc`; no cast at a point of use -/
+theorem C05_type_check_first_tree_set :
+    typeCheckOf CelloGen.Own.typeChecks "Tree_Set" = some (["key", "val"], "Tree_Alloc", []) := by decide
+
+/-- `Table_Rem(self, key)`: `cast(key)` before the lookup; the first effect is the `destruct` of the found pair -/
+theorem C05_type_check_first_table_rem :
+    typeCheckOf CelloGen.Own.typeChecks "Table_Rem" = some (["key"], "destruct", []) := by decide
+
+/-- `Tree_Rem(self, key)`: `cast(key)` before the descent; the first effect is the `destruct` of the found pair -/
+theorem C05_type_check_first_tree_rem :
+    typeCheckOf CelloGen.Own.typeChecks "Tree_Rem" = some (["key"], "destruct", []) := by decide
+
+/-- Array.c and List.c never cast an element argument — the stored element's own `Assign` / `Cmp` is the type check, and
+    it is reached after the first effect recorded here: `nitems++` / `nitems +=` / `nitems =` for Array_Push,
+    Array_Push_At, Array_Concat, Array_New (the array has made room: **not atomic**, KF-C12-array-push-type and
+    own-array-new-partial), `List_Alloc` for List_Push (an unlinked node: the list itself is untouched), the bounds
+    lookup for List_Push_At, the element's `assign` itself for the two `Set`s; `Table_Set` grows a table without slots
+    before it delegates to `Table_Set_Move`; the constructors cast only their type arguments.  These rows are what
+    `arrayPushWrong / arrayPushAtWrong / arrayConcatArgs / arrayNewRefused / listPushWrong / listPushAtWrong / seqSetWrong /
+    seqRemWrong / tableSetRefusedC` mirror; a repair that casts first changes a row and this theorem with it. -/
+theorem C05_type_check_late_array_list :
+    CelloGen.Own.typeChecks.filter (fun r => (typeCheckOf modelledTypeChecksFirst r.1).isNone) = modelledTypeChecksLate := by
+  decide
+
+/-- …and the rows of the four cast-first functions are all there is besides (no function that takes an element argument
+    is missing from either list). -/
+theorem C05_type_checks_complete :
+    CelloGen.Own.typeChecks.filter (fun r => (typeCheckOf modelledTypeChecksFirst r.1).isSome) = modelledTypeChecksFirst := by
+  decide
+
+/-- The element-handling functions call no function of their source file other than the ones of the profile vocabulary
+    and pure accessors (item / key / value address, links, colours, sizes): allocation, assignment and type checks have
+    not been moved into a helper the profile does not see. -/
+theorem C05_no_unmodelled_helpers : CelloGen.Own.unmodelledCallees = [] := by decide
 
 /-- The ownership-relevant calls of every element-handling function of Array.c, List.c, Table.c, Tree.c and of Box
     (regenerated from /repo on every run) are the ones the model was written against: which functions `destruct`,
@@ -334,20 +389,134 @@ theorem C05_never_while_contained_partial {w : World} (hinv : Inv w) (op : Op) (
   · exact inv_disjoint (run_inv hs.inv later hlater.nkf) _ (run_retired_mono hs.inv later hlater.nkf _ hlog)
   · exact List.mem_append.mp (hs.cons.mem_iff.mp (List.mem_append_right _ hid))
 
-/-- A refused in-contract operation (empty pop, bad index, absent element or key, refused resize) assigns nothing and
-    leaves every container as it was, and
+/-- A refused in-contract operation (empty pop, bad index, absent element or key, refused resize, **an element / key /
+    value of the wrong type**) assigns nothing and leaves every container as it was, and
       * on a container of probe elements it constructs nothing and finalises nothing;
       * on a container of Box (a refused `push_at`) the only element constructed is the pointee made for the call, and
-        nothing but that pointee is finalised (the caller deletes it): no *stored* element changes hands on an error path.
-    (The one error path that did — List_Push_At — was repaired by 4077d96, see `C05_list_pushat_old_order_refuted`.) -/
-theorem C05_refused_no_effect_partial {w : World} (op : Op) (hin : inContract w op = true)
+        nothing but that pointee is finalised (the caller deletes it): no *stored* element changes hands on an error path;
+      * a refused constructor (a wrong-typed initial element / key / value) binds no name, and the identities finalised
+        when the half-built object is reclaimed are exactly the ones it constructed (a repeated key among the initial
+        pairs of a Tree was assigned in place before the failing pair was reached: `updated` need not be empty there).
+    (`0 < w.next` holds in every world an in-contract history reaches: `Inv.pos`.  The one error path that did leak —
+    List_Push_At — was repaired by 4077d96, see `C05_list_pushat_old_order_refuted`.) -/
+theorem C05_refused_no_effect_partial {w : World} (hpos : 0 < w.next) (op : Op) (hin : inContract w op = true)
     (hr : (step w op).2.out ≠ .ok) :
-    (step w op).2.updated = [] ∧ (∀ e, lookup (step w op).1.objs e = lookup w.objs e) ∧
-    (((step w op).2.issued = [] ∧ (step w op).2.retired = []) ∨
-     (srcIsBox w op.target = true ∧ ∃ t, (step w op).2.issued = [t] ∧ ∀ u ∈ (step w op).2.retired, u = t)) := by
-  rcases step_refused op (inContract_nkf hin) hr with ⟨h1, h2, h3, h4⟩ | ⟨hb, ht, hu, hf⟩
-  · exact ⟨h3, h4, Or.inl ⟨h1, h2⟩⟩
-  · exact ⟨hu, hf, Or.inr ⟨hb, ht⟩⟩
+    (∀ e, lookup (step w op).1.objs e = lookup w.objs e) ∧
+    (((step w op).2.updated = [] ∧ (step w op).2.issued = [] ∧ (step w op).2.retired = []) ∨
+     ((step w op).2.updated = [] ∧ srcIsBox w op.target = true ∧
+        ∃ t, (step w op).2.issued = [t] ∧ ∀ u ∈ (step w op).2.retired, u = t) ∨
+     (op.isTypedCtor = true ∧ ids (step w op).2.retired ~ ids (step w op).2.issued)) := by
+  rcases step_refused hpos op (inContract_nkf hin) hr with ⟨h1, h2, h3, h4⟩ | ⟨hb, ht, hu, hf⟩ | ⟨hc, hp, hf⟩
+  · exact ⟨h4, Or.inl ⟨h3, h1, h2⟩⟩
+  · exact ⟨hf, Or.inr (Or.inl ⟨hu, hb, ht⟩)⟩
+  · exact ⟨hf, Or.inr (Or.inr ⟨hc, hp⟩)⟩
+
+/-- **C05_refused_no_effect (type errors).**  A call with an element / key / value of the wrong type — an Int, a String,
+    a Float, a Type object, NULL where the probe type is expected — outside the non-atomic territory (`typedAtomic`: not
+    Array_Push / Array_Push_At past its bounds check / Array_Concat / Array_New, not List_Concat after well-typed items)
+    and executed (not `bad`: the receiver exists and is a container of probe elements) is **always refused** — never
+    accepted, whatever the container holds — and
+      * push, push_at, set, rem on a List; set, rem and a push_at with a bad index on an Array; concat whose first item
+        is wrong-typed; set with a wrong-typed key and/or value (existing key or new key) and rem with a wrong-typed key
+        on a Table and on a Tree: nothing is constructed, nothing finalised, nothing assigned in place, every container
+        is the value it was;
+      * a constructor of a List, Table or Tree with a wrong-typed initial element / key / value: no name is bound, every
+        container is the value it was, and the identities finalised are exactly the identities constructed. -/
+theorem C05_refused_no_effect_type {w : World} (hpos : 0 < w.next) (c : Nat) (t : TCall) (hw : t.hasWrong = true)
+    (hat : typedAtomic w c t = true) (hb : (step w (.typed c t)).2.bad = false) :
+    (step w (.typed c t)).2.out ≠ .ok ∧ (∀ e, lookup (step w (.typed c t)).1.objs e = lookup w.objs e) ∧
+    (((step w (.typed c t)).2.issued = [] ∧ (step w (.typed c t)).2.retired = [] ∧ (step w (.typed c t)).2.updated = []) ∨
+     (t.isCtor = true ∧ ids (step w (.typed c t)).2.retired ~ ids (step w (.typed c t)).2.issued)) := by
+  have hr := typed_wrong_refused (w := w) (c := c) hw hb
+  refine ⟨hr, ?_⟩
+  rcases step_refused hpos (.typed c t) hat hr with ⟨h1, h2, h3, h4⟩ | ⟨hbx, _⟩ | ⟨hc, hp, hf⟩
+  · exact ⟨h4, Or.inl ⟨h1, h2, h3⟩⟩
+  · exact absurd hbx (typed_not_box hb)
+  · exact ⟨hf, Or.inr ⟨by cases t <;> simp_all [Op.isTypedCtor, TCall.isCtor], hp⟩⟩
+
+/-- **the non-atomic territory is exact.**  For an executed call with a wrong-typed argument, `typedAtomic` holds *exactly*
+    when the call has no effect (every container the value it was; nothing constructed or finalised, or — a constructor —
+    finalised = constructed).  So the type-refused calls that are NOT atomic are precisely: `push` on an Array,
+    `push_at` on an Array at an index its bounds check accepts, `concat` onto an Array (any wrong-typed item), `new(Array, …)`
+    — the array counts records that were never constructed: KF-C12-array-push-type (Array_Push / Array_Push_At /
+    Array_Concat, recorded under C12) and own-array-new-partial — and `concat` onto a List when well-typed items precede
+    the wrong one (they stay: KF-C12-list-concat-partial).  Nothing else is excluded from the contract for a type error,
+    and nothing that leaves an effect is included. -/
+theorem C05_type_refused_atomic_exact {w : World} (hpos : 0 < w.next) (c : Nat) (t : TCall) (hw : t.hasWrong = true)
+    (hb : (step w (.typed c t)).2.bad = false) :
+    typedAtomic w c t = true ↔ TypedNoEffect w t (step w (.typed c t)) := by
+  constructor
+  · intro hat
+    obtain ⟨_, hf, h⟩ := C05_refused_no_effect_type hpos c t hw hat hb
+    exact ⟨hf, h.imp (fun h => ⟨h.1, h.2.1⟩) id⟩
+  · intro h
+    cases hat : typedAtomic w c t
+    · exact absurd h (typed_not_atomic_effect hw hb hat)
+    · rfl
+
+/-- the same at the level of one container, for **every** input (no contract): what each type-refused call does to the
+    contents.  The atomic ones return the contents they were given and construct / finalise nothing; List_Concat keeps
+    the well-typed items before the wrong one — and still conserves identities; a refused List / Table / Tree
+    constructor finalises exactly what it constructed. -/
+theorem C05_conservation_type_refused (mk : MapKind) (next : Nat) (xs : List Tok) (kvs : List KV) (i : Int)
+    (args : List Arg) (k v : Arg) (pairs : List (Arg × Arg)) (hnext : 0 < next) :
+    (listPushWrong xs).inert xs ∧ (listPushAtWrong xs i).inert xs ∧ (seqSetWrong xs i).inert xs ∧ (seqRemWrong xs).inert xs ∧
+    ((¬ ∃ a b, k = .pay a ∧ v = .pay b) → (mapSetArgs mk next kvs k v).inert kvs) ∧ (mapRemWrong kvs).inert kvs ∧
+    (let r := listConcatArgs next xs args; Conserves xs r.val r.issued r.retired ∧ FreshFrom next r.issued) ∧
+    (let r := listNewRefused next args; Conserves [] [] r.issued r.retired ∧ FreshFrom next r.issued) ∧
+    (let r := mapNewRefused mk next pairs; Conserves [] [] r.issued r.retired ∧ FreshFrom next r.issued) := by
+  refine ⟨inert_refused _ _, ?_, ?_, inert_refused _ _, fun h => ?_, inert_refused _ _, cons_listConcatArgs _ _ _,
+    ⟨(cons_listNewRefused next args).1, (cons_listNewRefused next args).2.1⟩, cons_mapNewRefused mk next pairs hnext⟩
+  · obtain ⟨e, he⟩ := listPushAtWrong_spec xs i; rw [he]; exact inert_refused _ _
+  · obtain ⟨e, he⟩ := seqSetWrong_spec xs i; rw [he]; exact inert_refused _ _
+  · rw [mapSetArgs_refused h]; exact inert_refused _ _
+
+/-- the full statement: *every* executed call with a wrong-typed argument is refused without any effect -/
+def C05_refused_no_effect_type_statement : Prop :=
+  ∀ (w : World) (c : Nat) (t : TCall), t.hasWrong = true → (step w (.typed c t)).2.bad = false →
+    ∀ e, (lookup (step w (.typed c t)).1.objs e).map Cont.toks = (lookup w.objs e).map Cont.toks
+
+/-- …fails where the container makes room before the element's own type check runs.  Array_Push of an Int into an Array
+    of probes raises ValueError and leaves the array one zero-filled, never constructed record longer (this is
+    KF-C12-array-push-type, recorded under C12; the model mirrors it, `typedAtomic` keeps it out of the contract and
+    generated inputs stay out of it). -/
+theorem C05_refused_no_effect_type_refuted : ¬ C05_refused_no_effect_type_statement := by
+  intro h
+  have := h (run {} [.new 0 .arr, .push 0 5]).1 0 (.push .int) rfl (by decide) 0
+  revert this; decide
+
+/-- the full statement about refused constructors: what the half-built container's reclamation finalises is exactly
+    what the constructor had constructed -/
+def C05_ctor_refused_statement : Prop :=
+  ∀ (w : World) (c : Nat) (t : TCall), t.isCtor = true → t.hasWrong = true → (step w (.typed c t)).2.bad = false →
+    (step w (.typed c t)).2.retired ~ (step w (.typed c t)).2.issued
+
+/-- …fails for Array_New (known-finding territory own-array-new-partial): `nitems` and the `malloc` come before the
+    loop, so `new(Array, T, a, WRONG, b)` leaves a half-built array whose Array_Del — run by the collector — destructs
+    three records of which one was constructed: the zero-filled record of the wrong element and the uninitialised one
+    after it are passed to `destruct` as well. -/
+theorem C05_array_new_partial_refuted : ¬ C05_ctor_refused_statement := by
+  intro h
+  have := (h {} 0 (.newSeq .array [.pay 1, .wrong .int, .pay 2]) rfl rfl (by decide)).length_eq
+  revert this; decide
+
+/-- the non-atomic territory, operation by operation, on concrete witnesses (the model mirrors the code):
+    Array_Push, Array_Push_At (accepted index), Array_Concat (a wrong-typed item after one well-typed: the record of the
+    wrong item and of the item after it are counted but never constructed) raise ValueError with `len` counting raw
+    records; a refused Array_New runs destructors on records that were never constructed; List_Concat keeps the
+    well-typed items before the wrong one (ownership stays consistent: 3 live, 3 held). -/
+theorem C05_type_refused_not_atomic_witnesses :
+    (let w := (run {} [.new 0 .arr, .push 0 5, .typed 0 (.push .int)]).1
+     liveCount w = 1 ∧ (w.objs.map (fun cx => cx.2.len)).sum = 2) ∧
+    (let w := (run {} [.new 0 .arr, .push 0 5, .typed 0 (.pushAt 0 .str)]).1
+     liveCount w = 1 ∧ (w.objs.map (fun cx => cx.2.len)).sum = 2) ∧
+    (let w := (run {} [.new 0 .arr, .push 0 5, .typed 0 (.concat [.pay 7, .wrong .null, .pay 8])]).1
+     liveCount w = 2 ∧ (w.objs.map (fun cx => cx.2.len)).sum = 4) ∧
+    (let o := (step {} (.typed 0 (.newSeq .array [.pay 1, .wrong .int, .pay 2]))).2
+     o.out = .raised .valueError ∧ o.issued.length = 1 ∧ o.retired.length = 3) ∧
+    (let r := run {} [.new 0 .lst, .push 0 5, .typed 0 (.concat [.pay 7, .pay 8, .wrong .type, .pay 9])]
+     (r.2.map (·.out)) = [.ok, .ok, .raised .valueError] ∧ liveCount r.1 = 3 ∧ (r.1.objs.map (fun cx => cx.2.len)).sum = 3) := by
+  decide
 
 /-- the full statement, for every operation -/
 def C05_never_while_contained_statement : Prop :=
@@ -611,17 +780,37 @@ def demo : List Op :=
    .mset 3 33 30, .mrem 3 17, .new 4 .tre, .assign 4 3, .mset 4 1 12, .copy 5 4, .del 4, .resize 3 0,
    .new 6 .boxArr, .push 6 41, .push 6 42, .pop 6, .box 7 50, .concat 0 2, .assign 0 0,
    .new 8 .boxLst, .push 8 43, .pushAt 8 0 44, .pushAt 6 5 45, .pushAt 6 0 46, .new 9 .tre, .assign 1 9, .mset 9 3 4,
-   .mrem 9 3]
+   .mrem 9 3,
+   -- wrong-typed arguments: every one refused, nothing constructed that is not finalised again, nothing changed
+   .typed 2 (.push .int), .typed 2 (.pushAt 0 .null), .typed 2 (.set 0 .str), .typed 2 (.rem .type), .typed 0 (.set 0 .float),
+   .typed 0 (.pushAt 99 .int), .typed 2 (.concat [.wrong .int, .pay 4]), .typed 2 (.concat [.pay 4, .pay 6]),
+   .typed 3 (.mset (.wrong .int) (.pay 1)), .typed 3 (.mset (.pay 33) (.wrong .null)), .typed 3 (.mset (.pay 77) (.wrong .str)),
+   .typed 5 (.mset (.pay 1) (.wrong .int)), .typed 5 (.mset (.pay 78) (.wrong .type)), .typed 5 (.mrem .float), .typed 3 (.mrem .int),
+   .typed 10 (.newSeq .list [.pay 1, .pay 2, .wrong .int, .pay 3]), .typed 10 (.newMap .table [(.pay 1, .pay 2), (.pay 3, .wrong .int)]),
+   .typed 10 (.newMap .tree [(.pay 1, .pay 2), (.pay 1, .pay 5), (.wrong .null, .pay 6)]), .typed 10 (.newSeq .list [.pay 8, .pay 9])]
 
 example : allInContract {} demo := by
   simp only [demo, allInContract]
   decide
 
-/-- the demo history (39 operations over all kinds: probe and Box elements, a refused `push_at` of a Box, self-assignment,
-    assignment across the families from an empty source) ends with 14 live elements in 9 containers, 23 finalised, and
-    no operation was refused as ill-formed -/
-example : liveCount (run {} demo).1 = 14 ∧ (run {} demo).1.objs.length = 9 ∧ (run {} demo).1.retiredLog.length = 23 ∧
-    (run {} demo).2.all (fun o => !o.bad) = true := by
+/-- the demo history (58 operations over all kinds: probe and Box elements, a refused `push_at` of a Box, self-assignment,
+    assignment across the families from an empty source, 17 calls with a wrong-typed element / key / value — all refused —
+    and two through the typed route that are accepted) ends with 18 live elements in 10 containers, 29 finalised, and no
+    operation was refused as ill-formed -/
+example : liveCount (run {} demo).1 = 18 ∧ (run {} demo).1.objs.length = 10 ∧ (run {} demo).1.retiredLog.length = 29 ∧
+    (run {} demo).2.all (fun o => !o.bad) = true ∧
+    ((run {} demo).2.drop 39).map (fun o => o.out == .ok) =
+      [false, false, false, false, false, false, false, true, false, false, false, false, false, false, false, false, false,
+       false, true] := by
+  decide
+
+/-- the hypotheses of `C05_refused_no_effect_type` are met in the demo world (after the first 39 operations) by a `set`
+    on the Tree 5 with an existing key and a wrong-typed value, and by a Tree constructor whose third pair has a NULL key -/
+example : let w := (run {} (demo.take 39)).1
+    0 < w.next ∧ typedAtomic w 5 (.mset (.pay 1) (.wrong .int)) = true ∧
+    (step w (.typed 5 (.mset (.pay 1) (.wrong .int)))).2.bad = false ∧
+    typedAtomic w 10 (.newMap .tree [(.pay 1, .pay 2), (.pay 1, .pay 5), (.wrong .null, .pay 6)]) = true ∧
+    (step w (.typed 10 (.newMap .tree [(.pay 1, .pay 2), (.pay 1, .pay 5), (.wrong .null, .pay 6)]))).2.bad = false := by
   decide
 
 /-- the hypotheses of `C05_deep_partial` are met in the demo world: container 2 is a List of probes, name 12 is free -/
